@@ -24,7 +24,7 @@ def pairs_sizes(tier):
     small = [(2, 2), (3, 5), (6, 8), (8, 6), (5, 12)] if tier == 'quick' else \
         [(h, w) for h in (2, 3, 4, 6, 8, 10, 12) for w in (2, 3, 4, 6, 8, 10, 12)]
     out = [(b, q, h, w) for (b, q) in dtc.PAIRS for (h, w) in small]
-    g = [2, 3, 4, 6, 7, 10] if tier == 'quick' else list(range(2, 17))
+    g = [2, 3, 4, 6, 10] if tier == 'quick' else list(range(2, 17))
     rot = list(zip(dtc.BIORTS + dtc.BIORTS[:1], dtc.QSHIFTS))
     out += [(b, q, h, w) for (b, q) in rot for h in g for w in g]
     return sorted(set(out))
@@ -35,7 +35,7 @@ def bounds(tier):
 
 
 def jcap(tier):
-    return 5 if tier == 'quick' else 7
+    return 4 if tier == 'quick' else 7
 
 
 def plan(tier):
@@ -45,7 +45,7 @@ def plan(tier):
 
 
 def required_regimes(tier):
-    return {'inv:crop_rows', 'inv:crop_cols', 'inv:no_crop', 'closure:self_loop', 'absent:lowpass', 'absent:level1',
+    return {'variant:N=1', 'variant:C=2', 'inv:crop_rows', 'inv:crop_cols', 'inv:no_crop', 'closure:self_loop', 'absent:lowpass', 'absent:level1',
             'absent:coarser_level', 'absent:next_to_crop', 'kind:None', 'kind:zero_dim', 'kind:empty'}
 
 
@@ -103,6 +103,18 @@ def run(item):
         if d is not None:
             res.violation('synthesis_vs_reference', cfg, d, tags)
         res.op(out.reshape(P, -1))
+        if P <= 300:
+            try:
+                o1 = dtc.impl_inverse(b, q, tl[:1], [h_[:1] for h_ in th]).numpy()
+                o2 = dtc.impl_inverse(b, q, torch.cat([tl, tl.flip(0)], dim=1), [torch.cat([h_, h_.flip(0)], dim=1) for h_ in th]).numpy()
+                res['impl_calls'] += 2
+                res.regime('variant:N=1', 'variant:C=2')
+                e2 = np.stack([out, out[::-1]], axis=1)
+                if o1.shape != (1, 1) + out.shape[1:] or common.maxabs(o1[0, 0] - out[0]) > common.TOL * max(1.0, common.maxabs(out)) or \
+                        o2.shape != e2.shape or common.maxabs(o2 - e2) > common.TOL * max(1.0, common.maxabs(e2)):
+                    res.violation('synthesis_vs_reference', dict(cfg, variant='N=1 / C=2'), {'kind': 'value_or_shape', 'shapes': [list(o1.shape), list(o2.shape)]}, tags)
+            except Exception as e:
+                res.violation('synthesis_vs_reference', dict(cfg, variant='N=1 / C=2'), {'kind': 'raise', 'exc': repr(e)[:200]}, tags)
         if (H, W, J) in ((6, 8, 2), (3, 5, 2)):
             res.sample({'config': cfg, 'pyramid_coefficients': int(P), 'lowpass': list(lsh), 'highpasses': [list(s) for s in hsh], 'output': list(out.shape[1:])})
         if J <= 3:
